@@ -136,6 +136,8 @@ def _reference(create, xs, pref, mode):
     cs = json.loads(json.dumps(create))
     cs.pop('fault', None)
     meta = cs['c34']
+    if len(cs.get('args', [])) > 2 and cs['args'][2].get('t') == 'obj':
+        cs['args'][2] = json.loads(json.dumps(meta['y0']))      # the caller's container as it was when the problem was posed
     def fn():
         w = World(budget=None)
         ex = common.Exec(w, 'REF')
@@ -396,7 +398,21 @@ class _Gen(object):
         for _ in range(2 if self.two else 1):
             c, span = self.make_problem()
             steps.append({'kind': 'setprec', 'actor': 'mp', 'value': I(c['c34']['prec']), 'id': self.new_id(), 'c34': {'creation': True}})
+            reuse_y0 = c['args'][2].get('t') == 'list' and r.random() < 0.3
+            if reuse_y0:
+                # the caller keeps its initial-value container and edits it after posing the problem (a parameter
+                # sweep re-using one list or matrix): the problem posed is the one at the time of the odefun call
+                y0spec = c['args'][2]
+                if r.random() < 0.5:
+                    mk = {'kind': 'call', 'actor': 'mp', 'op': 'py:list', 'args': [json.loads(json.dumps(y0spec))], 'id': self.new_id()}
+                else:
+                    mk = {'kind': 'call', 'actor': 'mp', 'op': 'f:matrix', 'args': [json.loads(json.dumps(y0spec))], 'id': self.new_id()}
+                steps.append(mk)
+                c['args'][2] = {'t': 'obj', 'i': mk['id']}
             steps.append(c)
+            if reuse_y0:
+                steps.append({'kind': 'call', 'actor': 'mp', 'op': 'setitem:', 'id': self.new_id(),
+                              'args': [{'t': 'obj', 'i': mk['id']}, I(r.randint(0, 1)), _dy(r.randint(-40, 40) or 7, 3)]})
             interps.append((c, self.points(c, span, r.randint(3, 14))))
         # interleave the evaluation lists
         queue = []
